@@ -396,53 +396,100 @@ impl<C: Config> Engine<C> {
         Ok(false)
     }
 
-    /// Checks whether the stack of computing queries contains a cycle
-    #[allow(clippy::needless_pass_by_value)]
-    fn check_cyclic_internal(
-        &self,
-        computing: &QueryComputing,
-        target: &QueryID,
-    ) -> bool {
-        if computing.callee_info.callee_queries.contains_sync(target) {
-            computing
-                .is_in_scc
-                .store(true, std::sync::atomic::Ordering::SeqCst);
-
-            return true;
-        }
-
-        let mut found = false;
-
-        // OPTIMIZE: this can be parallelized
-        computing.callee_info.callee_queries.iter_sync(|k, _| {
-            let Some(state) =
-                self.computation_graph.computing.try_get_query_computing(k)
-            else {
-                return true;
-            };
-
-            found |= self.check_cyclic_internal(&state, target);
-
-            true
-        });
-
-        if found {
-            computing
-                .is_in_scc
-                .store(true, std::sync::atomic::Ordering::SeqCst);
-        }
-
-        found
-    }
-
-    /// Checks whether the stack of computing queries contains a cycle
-    #[allow(clippy::needless_pass_by_value)]
+    /// Checks whether `target` is reachable from `running_state` in the
+    /// wait-for graph of the queries that are currently computing, and marks
+    /// every computing query from which it is reachable as part of the SCC.
+    ///
+    /// The wait-for graph may itself contain cycles that do not go through
+    /// `target` (another request is in the middle of resolving a different
+    /// cycle), so the graph is explored with a visited set first and the
+    /// reachability is then propagated to a fixpoint.
     pub(super) fn check_cyclic(
         &self,
-        running_state: &QueryComputing,
+        running_state: &Arc<QueryComputing>,
         target: &QueryID,
     ) -> bool {
-        self.check_cyclic_internal(running_state, target)
+        struct Visited {
+            computing: Arc<QueryComputing>,
+            callees: Vec<usize>,
+            reaches_target: bool,
+        }
+
+        let mut nodes: Vec<Visited> = Vec::new();
+        let mut index: HashMap<*const QueryComputing, usize> = HashMap::new();
+        let mut pending = vec![running_state.clone()];
+
+        index.insert(Arc::as_ptr(running_state), 0);
+        nodes.push(Visited {
+            computing: running_state.clone(),
+            callees: Vec::new(),
+            reaches_target: false,
+        });
+
+        while let Some(computing) = pending.pop() {
+            let this = index[&Arc::as_ptr(&computing)];
+
+            nodes[this].reaches_target =
+                computing.callee_info.callee_queries.contains_sync(target);
+
+            let mut callee_ids = Vec::new();
+            computing.callee_info.callee_queries.iter_sync(|k, _| {
+                callee_ids.push(*k);
+                true
+            });
+
+            for callee_id in callee_ids {
+                let Some(state) = self
+                    .computation_graph
+                    .computing
+                    .try_get_query_computing(&callee_id)
+                else {
+                    continue;
+                };
+
+                let next = nodes.len();
+                let callee_index =
+                    *index.entry(Arc::as_ptr(&state)).or_insert(next);
+
+                if callee_index == next {
+                    nodes.push(Visited {
+                        computing: state.clone(),
+                        callees: Vec::new(),
+                        reaches_target: false,
+                    });
+                    pending.push(state);
+                }
+
+                nodes[this].callees.push(callee_index);
+            }
+        }
+
+        loop {
+            let mut changed = false;
+
+            for i in 0..nodes.len() {
+                if !nodes[i].reaches_target
+                    && nodes[i].callees.iter().any(|c| nodes[*c].reaches_target)
+                {
+                    nodes[i].reaches_target = true;
+                    changed = true;
+                }
+            }
+
+            if !changed {
+                break;
+            }
+        }
+
+        for node in &nodes {
+            if node.reaches_target {
+                node.computing
+                    .is_in_scc
+                    .store(true, std::sync::atomic::Ordering::SeqCst);
+            }
+        }
+
+        nodes[0].reaches_target
     }
 
     pub(super) fn is_query_running_in_scc(
